@@ -203,8 +203,21 @@ def _find_first_method_line(class_body: Node) -> int | None:
     return None
 
 
+def _is_inside_function_valued_field(class_body: Node, ts_start: int, ts_end: int) -> bool:
+    """Check if range lies inside a class field whose value is an arrow function or function expression."""
+    field_types = ("public_field_definition", "field_definition")
+    for child in class_body.children:
+        if child.type not in field_types or not _contains_function_body(child):
+            continue
+        if child.start_point[0] <= ts_start and ts_end <= child.end_point[0]:
+            return True
+    return False
+
+
 def _is_in_class_field_area(class_body: Node, ts_start: int, ts_end: int) -> bool:
     """Check if range is in class field definition area (before methods)."""
+    if _is_inside_function_valued_field(class_body, ts_start, ts_end):
+        return False  # statements of `run = (x) => { ... }` are code, like a method's
     first_method_line = _find_first_method_line(class_body)
     class_start = class_body.start_point[0]
     class_end = class_body.end_point[0]
